@@ -89,3 +89,31 @@ def drive(plan, on_set=True, limit=200000):
             msg = plan.send(resp)
     except StopIteration as e:
         return msgs, e.value
+
+
+def drive_into(plan, msgs, limit=200000):
+    """Like drive(), but appends to `msgs` so that messages yielded before an exception are kept."""
+    resp = None
+    try:
+        msg = plan.send(None)
+        while True:
+            msgs.append(msg)
+            if len(msgs) > limit:
+                raise RuntimeError("plan does not terminate")
+            cmd = msg.command
+            if cmd == "read":
+                resp = msg.obj.read()
+            elif cmd == "set":
+                msg.obj.set(*msg.args)
+                resp = None
+            elif cmd == "open_run":
+                resp = "uid-0"
+            elif cmd in ("stage", "unstage"):
+                resp = [msg.obj]
+            elif cmd == "rewindable":
+                resp = True
+            else:
+                resp = None
+            msg = plan.send(resp)
+    except StopIteration as e:
+        return e.value
